@@ -135,7 +135,7 @@ func bisimOracle(sub string, scripts func(x *OracleCtx) []*Script, refOpt func(x
 		_, entries := BuildRef(ss, ro)
 		isEntry := func(name interp.Value) bool {
 			for _, s := range ss {
-				if sameValue(x.C, s.Name.Val, name) == 1 {
+				if sameValue(x.C, s.NameValue(), name) == 1 {
 					return true
 				}
 			}
@@ -151,13 +151,13 @@ func bisimOracle(sub string, scripts func(x *OracleCtx) []*Script, refOpt func(x
 			}
 			ag := BuildAsmGraph(x.C, res.Out, isEntry, x.Case.Prog.Atoms.Coded)
 			for _, s := range ss {
-				a0 := ag.EntryNode(x.C, s.Name.Val)
+				a0 := ag.EntryNode(x.C, s.NameValue())
 				if a0 == nil {
-					return &Violation{Sub: sub, Msg: fmt.Sprintf("variant %s: entry label of script %s is not defined in the output", v.Name, interp.ToString(s.Name.Val))}
+					return &Violation{Sub: sub, Msg: fmt.Sprintf("variant %s: entry label of script %s is not defined in the output", v.Name, interp.ToString(s.NameValue()))}
 				}
 				var st bisimStats
 				if m := Bisimulate(x.C, entries[s], a0, &st); m != nil {
-					return &Violation{Sub: sub, Msg: fmt.Sprintf("variant %s, script %s: %s", v.Name, s.Name.Placeholder(), m.Msg), Query: m.Query,
+					return &Violation{Sub: sub, Msg: fmt.Sprintf("variant %s, script %s: %s", v.Name, interp.ToString(s.NameValue()), m.Msg), Query: m.Query,
 						Detail: []string{"source does: " + m.RefOut, "assembly does: " + m.AsmOut, fmt.Sprintf("after events: %v", m.Trail)}}
 				}
 			}
